@@ -122,7 +122,12 @@ def run_case(case, ctx):
         spec = lasobj.rand_spec(random.Random(case["seed"]), text_curve=0.0)
         try:
             b = io.StringIO()
-            lasobj.build(lasio, spec).write(b, version=case["gen_version"])
+            obj = lasobj.build(lasio, spec)
+            if case["seed"] % 2:
+                for it in obj.well:           # a ~Well section whose descriptions are short or empty
+                    it.descr = it.descr[:case["seed"] % 3]
+                ctx.count("inputs_with_short_well_descriptions")
+            obj.write(b, version=case["gen_version"])
             source = b.getvalue()
             fresh = lambda: lasio.read(source, mnemonic_case=mc)
             fresh()
